@@ -7,7 +7,7 @@ MODULES = ['PistacheModel.Props.C07', 'PistacheModel.Props.C07Interest']
 THEOREMS = ['Pistache.EventLoop.Props.' + t for t in ('other_untouched', 'no_attempts_from_others', 'blocked_one_attempt', 'blocked_event_one_attempt',
                                                       'writable_delivers', 'request_answered', 'old_drain_spins')] + \
            ['Pistache.WriteInterest.Props.' + t for t in ('pending_never_forgotten', 'interest_only_when_pending', 'room_then_writable_delivers', 'blocked_costs_one_attempt',
-                                                           'run_refines_from', 'bytes_complete_in_order', 'rearm_once_strands', 'stranded_stays')]
+                                                           'run_refines_from', 'bytes_complete_in_order', 'drained_all_fulfilled', 'rearm_once_strands', 'stranded_stays')]
 
 def gen(tier, rnd):
     L = ['stall 2 4000000 600 3', 'stall 1 6000000 300 2 1', 'stall 3 3000000 400 1 1', 'stall 1 8000000 300 1 2', 'stall 2 5000000 400 2 2', 'stall 2 3000000 300 2 3', 'stall 1 6000000 300 1 3']
